@@ -76,6 +76,32 @@ PolyArea2(poly) == IF Len(poly) = 0 THEN 0
                    ELSE Abs(Area2(poly[1])) - SumSeq([j \in 1..(Len(poly)-1) |-> Abs(Area2(poly[j+1]))], 1)
 MpArea2(mp) == SumSeq([i \in 1..Len(mp) |-> PolyArea2(mp[i])], 1)
 
+\* ---- contracts on a result multipolygon, shared by Layer P (BoolOps) and the Layer M checks ----
+\* the result, read polygon by polygon, is expression `ex` over the operands `recs` on both sides
+\* of every atom of the operands' arrangement
+RegionMatches(mp, ex, recs) ==
+  LET bs == BaseNames(ex)
+      E == UNION {Segs(recs[n]) : n \in bs}
+      V == ArrVerts(E)
+  IN \A s \in AtomsOf(E, V) :
+        LET want == ExprPar(ex, recs, s)  got == PolyCount(mp, s)
+        IN (got[1] >= 1) = want[1] /\ (got[2] >= 1) = want[2]
+
+\* the rings are grouped into a valid polygon set; Ein = the input segments
+PolygonSetValid(mp, Ein) ==
+  LET ER == EdgeRecs(mp)
+      E == Ein \cup Segs(ER)
+      V == ArrVerts(E)
+      RA == UNION { { [a |-> at, id |-> x.id] : at \in ChainOf(x.e, V) } : x \in ER }
+  IN /\ Cardinality(RA) = Cardinality({y.a : y \in RA})        \* (a) nothing shared or traversed twice
+     /\ \A s \in AtomsOf(E, V) :                                \* (c),(d) disjoint parts; both readings agree
+           LET got == PolyCount(mp, s)  eo == Par(ER, s)
+           IN got[1] <= 1 /\ got[2] <= 1 /\ eo[1] = (got[1] = 1) /\ eo[2] = (got[2] = 1)
+     /\ \A i \in 1..Len(mp) : \A j \in 2..Len(mp[i]) :          \* (b) holes inside their exterior, outside the other holes
+           \A x \in RingRecs(mp[i][j], i, j) : \A s \in ChainOf(x.e, V) :
+              /\ Par(RingRecs(mp[i][1], i, 1), s) = <<TRUE, TRUE>>
+              /\ \A j2 \in (2..Len(mp[i])) \ {j} : Par(RingRecs(mp[i][j2], i, j2), s) = <<FALSE, FALSE>>
+
 \* ---- ring normalisation for ring-set comparisons ----
 Open(r) == IF Len(r) >= 2 /\ XY(r[1]) = XY(r[Len(r)]) THEN SubSeq(r, 1, Len(r)-1) ELSE r
 RECURSIVE DedupAcc(_, _, _)
